@@ -582,4 +582,197 @@ theorem start_in_order (hs : SortSpec part sort)
         · rw [hL]; exact takeUntil_all _ _ (fun x _ => n1 x)
         · rw [hI]; exact takeUntil_all _ _ (fun x _ => n2 x)
 
+/-! ### early references -/
+
+theorem earlyRefLoop_prefix {β : Type} (isSmart : α → Bool) (get : α → β → Option β)
+    (l : List α) (cur : β) (log : List α) :
+    ∃ done, (earlyRefLoop isSmart get l cur log).1 = log ++ done ∧ done <+: l.filter isSmart ∧
+      ((∀ p b, (get p b).isSome = true) →
+        done = l.filter isSmart ∧ (earlyRefLoop isSmart get l cur log).2.isSome = true) := by
+  induction l generalizing cur log with
+  | nil => exact ⟨[], by simp [earlyRefLoop]⟩
+  | cons x rest ih =>
+    simp only [earlyRefLoop]
+    by_cases hx : isSmart x = true
+    · simp only [hx, if_true, List.filter_cons_of_pos]
+      cases h : get x cur with
+      | none =>
+        refine ⟨[x], rfl, ⟨rest.filter isSmart, rfl⟩, ?_⟩
+        intro hall; have := hall x cur; rw [h] at this; cases this
+      | some c =>
+        obtain ⟨done, h1, h2, h3⟩ := ih c (log ++ [x])
+        refine ⟨x :: done, by simp [h1], List.cons_prefix_cons.mpr ⟨rfl, h2⟩, ?_⟩
+        intro hall
+        obtain ⟨e1, e2⟩ := h3 hall
+        exact ⟨by rw [e1], e2⟩
+    · have hx' : isSmart x = false := by simpa using hx
+      simp only [hx', Bool.false_eq_true, if_false]
+      rw [List.filter_cons_of_neg (by simp [hx'])]
+      exact ih cur log
+
+/-- GetEarlyBeanReference calls the smart processors of the list front to back (a prefix ending at the first
+    failing callback); all of them when no callback fails and the flag is set (or there is no smart processor) -/
+theorem getEarlyBeanReference_in_order {β : Type} (hasInst : Bool) (isSmart : α → Bool) (get : α → β → Option β)
+    (procs : List α) (m : β) :
+    (getEarlyBeanReference hasInst isSmart get procs m).1 <+: procs.filter isSmart ∧
+    ((hasInst = true ∨ procs.filter isSmart = []) → (∀ p b, (get p b).isSome = true) →
+      (getEarlyBeanReference hasInst isSmart get procs m).1 = procs.filter isSmart ∧
+      (getEarlyBeanReference hasInst isSmart get procs m).2.isSome = true) := by
+  obtain ⟨done, h1, h2, h3⟩ := earlyRefLoop_prefix isSmart get procs m []
+  simp only [List.nil_append] at h1
+  unfold getEarlyBeanReference
+  cases hasInst with
+  | true =>
+    simp only [if_true]
+    refine ⟨by rw [h1]; exact h2, ?_⟩
+    intro _ hall
+    obtain ⟨e1, e2⟩ := h3 hall
+    exact ⟨by rw [h1, e1], e2⟩
+  | false =>
+    simp only [Bool.false_eq_true, if_false]
+    refine ⟨List.nil_prefix, ?_⟩
+    intro hf _
+    rcases hf with hf | hf
+    · cases hf
+    · exact ⟨hf.symm, rfl⟩
+
+theorem start_early_nil (loadRes : α → Step) (resolve : α → Option α) (isInst : α → Bool) (instRes : α → Step)
+    (before after : α → Unit → Res Unit) (runFails : α → Bool) (loaders procs runners : List α) :
+    (start sort part loadRes resolve isInst instRes before after runFails loaders procs runners).early = [] := by
+  unfold start
+  dsimp only
+  repeat' split
+  all_goals rfl
+
+/-- a whole start with the probe in a circular reference: the early-reference callbacks are a prefix of the sorted
+    smart processors, and all of them (with everything else as in `start`) when nothing stops -/
+theorem startC_in_order (hs : SortSpec part sort)
+    (loadRes : α → Step) (isInst : α → Bool) (instRes : α → Step)
+    (before after : α → Unit → Res Unit) (runFails : α → Bool)
+    (builtinInst : Bool) (isSmart : α → Bool) (get : α → Unit → Option Unit) (loaders procs runners : List α) :
+    let g := startC sort part loadRes (fun x => some x) isInst instRes before after runFails builtinInst isSmart get
+      loaders procs runners
+    let s := start sort part loadRes (fun x => some x) isInst instRes before after runFails loaders procs runners
+    g.early <+: (sortOrdered sort part procs).filter isSmart ∧
+    ((∀ x, isSmart x = true → isInst x = true) →
+     (∀ x, (loadRes x).stops = false) → (∀ x, (instRes x).stops = false) → (∀ p b, (get p b).isSome = true) →
+       g = { s with early := (sortOrdered sort part procs).filter isSmart }) := by
+  have hreg : invokeRegister sort part (fun x => some x) procs [] = (sortOrdered sort part procs, false) := by
+    have := registerLoop_total (fun x : α => x) (sortOrdered sort part procs) []
+    simpa [invokeRegister] using this
+  have hL2 : (loadConfigure sort part loadRes loaders).2 = (sortOrdered sort part loaders).any (fun x => (loadRes x).stops) := by
+    unfold loadConfigure; rw [twoStepLoop_eq]
+  have hI2 : (resolveAfterInstantiation isInst instRes (sortOrdered sort part procs)).2 =
+      ((sortOrdered sort part procs).filter isInst).any (fun x => (instRes x).stops) := by
+    unfold resolveAfterInstantiation; rw [twoStepLoop_eq]
+  obtain ⟨gP, gA⟩ := getEarlyBeanReference_in_order (builtinInst || procs.any isInst) isSmart get
+    (sortOrdered sort part procs) ()
+  have hE := start_early_nil (sort := sort) (part := part) loadRes (fun x => some x) isInst instRes before after
+    runFails loaders procs runners
+  intro g s
+  have hg : g = startC sort part loadRes (fun x => some x) isInst instRes before after runFails builtinInst isSmart get
+      loaders procs runners := rfl
+  clear_value g
+  unfold startC at hg
+  simp only [hreg] at hg
+  by_cases hc : ((loadConfigure sort part loadRes loaders).2 || false ||
+      (resolveAfterInstantiation isInst instRes (sortOrdered sort part procs)).2) = true
+  · simp only [hc, if_true] at hg
+    subst hg
+    refine ⟨by rw [hE]; exact List.nil_prefix, ?_⟩
+    intro _ n1 n2 _
+    rw [hL2, hI2, any_false n1, any_false n2] at hc
+    cases hc
+  · simp only [hc, if_false, Bool.false_eq_true] at hg
+    cases h3 : (getEarlyBeanReference (builtinInst || procs.any isInst) isSmart get (sortOrdered sort part procs) ()).2 with
+    | none =>
+      simp only [h3] at hg
+      subst hg
+      refine ⟨gP, ?_⟩
+      intro n0 _ _ n3
+      have hflag : (builtinInst || procs.any isInst) = true ∨ (sortOrdered sort part procs).filter isSmart = [] := by
+        cases hf : (sortOrdered sort part procs).filter isSmart with
+        | nil => exact Or.inr rfl
+        | cons x xs =>
+          have hx : x ∈ (sortOrdered sort part procs).filter isSmart := by rw [hf]; exact List.mem_cons_self
+          obtain ⟨hx1, hx2⟩ := List.mem_filter.mp hx
+          have hx3 : x ∈ procs := (sortOrdered_perm hs procs).mem_iff.mp hx1
+          exact Or.inl (by
+            rw [Bool.or_eq_true]; exact Or.inr (List.any_eq_true.mpr ⟨x, hx3, n0 x hx2⟩))
+      have := (gA hflag n3).2
+      rw [h3] at this; cases this
+    | some v =>
+      simp only [h3] at hg
+      subst hg
+      refine ⟨gP, ?_⟩
+      intro n0 _ _ n3
+      have hflag : (builtinInst || procs.any isInst) = true ∨ (sortOrdered sort part procs).filter isSmart = [] := by
+        cases hf : (sortOrdered sort part procs).filter isSmart with
+        | nil => exact Or.inr rfl
+        | cons x xs =>
+          have hx : x ∈ (sortOrdered sort part procs).filter isSmart := by rw [hf]; exact List.mem_cons_self
+          obtain ⟨hx1, hx2⟩ := List.mem_filter.mp hx
+          have hx3 : x ∈ procs := (sortOrdered_perm hs procs).mem_iff.mp hx1
+          exact Or.inl (by
+            rw [Bool.or_eq_true]; exact Or.inr (List.any_eq_true.mpr ⟨x, hx3, n0 x hx2⟩))
+      rw [(gA hflag n3).1]
+
+/-! ### one Configure, several Initialize calls -/
+
+theorem sortOrdered_filter_plain (hs : SortSpec part sort) (l : List α) :
+    (sortOrdered sort part l).filter (isPlain part) = l.filter (isPlain part) := by
+  have f := (blocks_filter part _ _ _ (sorted_block_class hs (isPrio part) l)
+      (sorted_block_class hs (isOrd part) l) (plain_block_class (part := part) l)).2.2
+  rw [sortOrdered_eq, f]
+
+/-- pointwise relation of two lists of the same length (core has no `Forall₂`) -/
+def Forall2 {β γ : Type} (R : β → γ → Prop) : List β → List γ → Prop
+  | [], [] => True
+  | a :: as, b :: bs => R a b ∧ Forall2 R as bs
+  | _, _ => False
+
+/-- what one Initialize does, in terms of the loaders `reg` registered at that moment (of which the slice `cur` is a
+    rearrangement with the unordered ones in registration order) -/
+def InitSpec (part : α → Part) (res : α → Step) (out : List (Ev α) × Bool) (reg : List α) : Prop :=
+  ∃ s : List α, s.Perm reg ∧ s.Pairwise (Precedes part) ∧
+    s.filter (isPlain part) = reg.filter (isPlain part) ∧
+    firsts out.1 = takeUntil (fun x => (res x).stops) s ∧
+    seconds out.1 = (firsts out.1).filter (fun x => match res x with | .next _ => true | _ => false) ∧
+    out.2 = reg.any (fun x => (res x).stops)
+
+theorem confInitialize_spec (hs : SortSpec part sort) (res : α → Step) (cur reg : List α)
+    (hp : cur.Perm reg) (hf : cur.filter (isPlain part) = reg.filter (isPlain part)) :
+    (confInitialize sort part res cur).1.Perm reg ∧
+    (confInitialize sort part res cur).1.filter (isPlain part) = reg.filter (isPlain part) ∧
+    InitSpec part res (confInitialize sort part res cur).2 reg := by
+  unfold confInitialize
+  by_cases he : cur.isEmpty = true
+  · have hc : cur = [] := by simpa using he
+    subst hc
+    have hr : reg = [] := hp.symm.eq_nil
+    subst hr
+    refine ⟨by simp, by simp, [], ?_⟩
+    simp [firsts, seconds, takeUntil]
+  · simp only [he, Bool.false_eq_true, if_false]
+    have hsp := sortOrdered_perm hs cur
+    refine ⟨hsp.trans hp, (sortOrdered_filter_plain hs cur).trans hf, sortOrdered sort part cur, hsp.trans hp,
+      sortOrdered_pairwise hs cur, (sortOrdered_filter_plain hs cur).trans hf, ?_, ?_, ?_⟩
+    · rw [twoStepLoop_eq]; simp [firsts_flatMap_evs]
+    · rw [twoStepLoop_eq]; simp [firsts_flatMap_evs, seconds_flatMap_evs]
+    · rw [twoStepLoop_eq]; exact any_perm (hsp.trans hp) _
+
+theorem confRun_spec (hs : SortSpec part sort) (res : α → Step) (ops : List (ConfOp α)) (cur reg : List α)
+    (hp : cur.Perm reg) (hf : cur.filter (isPlain part) = reg.filter (isPlain part)) :
+    Forall2 (InitSpec part res) (confRun sort part res ops cur) (confRegistered ops reg) := by
+  induction ops generalizing cur reg with
+  | nil => exact True.intro
+  | cons op rest ih =>
+    cases op with
+    | set ls => exact ih ls ls (List.Perm.refl _) rfl
+    | add ls =>
+      exact ih (cur ++ ls) (reg ++ ls) (hp.append_right ls) (by simp [List.filter_append, hf])
+    | init =>
+      obtain ⟨h1, h2, h3⟩ := confInitialize_spec hs res cur reg hp hf
+      exact ⟨h3, ih _ _ h1 h2⟩
+
 end Ioc.Order
